@@ -11,6 +11,8 @@
 package planner
 
 import (
+	"errors"
+
 	"github.com/sourcenetwork/defradb/client"
 	"github.com/sourcenetwork/defradb/internal/core"
 	"github.com/sourcenetwork/defradb/internal/keys"
@@ -102,9 +104,13 @@ func (p *parallelNode) Prefixes(prefixes []keys.Walkable) {
 }
 
 func (p *parallelNode) Close() error {
-	return p.applyToPlans(func(n planNode) error {
-		return n.Close()
-	})
+	// Every child must be closed also when closing an earlier one fails, otherwise the
+	// iterators of the remaining children outlive the transaction.
+	var err error
+	for _, plan := range p.children {
+		err = errors.Join(err, plan.Close())
+	}
+	return err
 }
 
 // Next loops through all the children nodes, and calls Next().
